@@ -177,10 +177,32 @@ def theorems_of(vfile):
     return re.findall(r'^\s*(?:Theorem|Lemma|Corollary|Example)\s+([A-Za-z0-9_\']+)', txt, re.M)
 
 
-def forbidden_scan():
-    """the development must contain none of: Admitted, admit, Axiom, Parameter, Conjecture, ..."""
+def dep_closure(vname):
+    """local .v files (module names) that Properties/…/<vname>.v depends on, transitively"""
+    seen, todo = set(), [vname]
+    while todo:
+        m = todo.pop()
+        if m in seen:
+            continue
+        p = os.path.join(COQ, m + '.v')
+        if not os.path.exists(p):
+            continue
+        seen.add(m)
+        txt = open(p).read()
+        for line in re.findall(r'(?m)^\s*(?:From\s+Pnc\s+)?Require\s+(?:Import\s+|Export\s+)?([^.]*)\.', txt):
+            for w in line.split():
+                w = w.split('.')[-1]
+                if w not in ('Import', 'Export') and os.path.exists(os.path.join(COQ, w + '.v')):
+                    todo.append(w)
+    return sorted(seen)
+
+
+def forbidden_scan(pid=None):
+    """the development the property depends on must contain none of: Admitted, admit, Axiom, Parameter,
+    Conjecture, ... (scoped to the dependency closure of Properties_<pid>.v; whole directory if pid is None)"""
     bad = []
-    for p in sorted(glob.glob(os.path.join(COQ, '*.v'))):
+    files = [os.path.join(COQ, m + '.v') for m in dep_closure('Properties_' + pid)] if pid else sorted(glob.glob(os.path.join(COQ, '*.v')))
+    for p in files:
         txt = open(p).read()
         txt = re.sub(r'\(\*.*?\*\)', '', txt, flags=re.S)      # comments do not count
         for m in re.finditer(FORBIDDEN, txt):
@@ -199,7 +221,7 @@ def prove(pid, gens=('consts',), lib=None, timeout=3000):
     t0 = time.time()
     ok, log = coq_make(['Properties_%s.vo' % pid], timeout=timeout)
     res = dict(ok=ok, names=names, obligations=len(names), gen_changed=changed, log=log[-6000:],
-               wall=time.time() - t0, failed=[], assumptions={}, forbidden=forbidden_scan())
+               wall=time.time() - t0, failed=[], assumptions={}, forbidden=forbidden_scan(pid))
     if ok:
         # capture Print Assumptions output by recompiling the statements file alone (its .vo deps exist)
         with Lock('coq'):
